@@ -102,3 +102,36 @@ def boot():
         requests.post = _no_net
     except Exception:
         pass
+
+
+class _NullStream:
+    def write(self, s):
+        return len(s)
+
+    def flush(self):
+        pass
+
+
+_LOG_HANDLER = None
+
+
+def logging_as_deployed(on):
+    """The manager's default logging configuration (comm/logging.py: one StreamHandler at DEBUG, root
+    level NOTSET) with the output discarded: every record is still formatted, by the very handler class
+    whose `emit` lets a RecursionError through.  Off (the default in simulation): logging disabled."""
+    global _LOG_HANDLER
+    import logging
+    root = logging.getLogger()
+    if _LOG_HANDLER is not None:
+        root.removeHandler(_LOG_HANDLER)
+        _LOG_HANDLER = None
+    if on:
+        h = logging.StreamHandler(_NullStream())
+        h.setLevel(logging.DEBUG)
+        h.setFormatter(logging.Formatter("[%(levelname)s:%(name)s] %(message)s"))
+        root.addHandler(h)
+        root.setLevel(logging.NOTSET)
+        _LOG_HANDLER = h
+        logging.disable(logging.NOTSET)
+    else:
+        logging.disable(logging.CRITICAL)
